@@ -213,7 +213,7 @@ func runCHSite(r *Run, s *chSite) {
 						continue
 					}
 					h := staticCallee(c)
-					if h == nil || h.Blocks == nil || h == fn || h.Pkg != fn.Pkg || len(h.Blocks) > 12 || strings.Contains(exp.String(), h.Name()) {
+					if h == nil || h.Blocks == nil || h == fn || pkgOfFunc(h) != pkgOfFunc(fn) || len(h.Blocks) > 12 || strings.Contains(exp.String(), h.Name()) {
 						continue
 					}
 					tail[h] = true
